@@ -315,9 +315,17 @@ func (w *W) runCase(f *Family, idx int) {
 			origin := panicOrigin(st)
 			d := D{"panic": fmt.Sprint(r), "op": w.Op, "a": w.A, "b": w.B, "c": w.C,
 				"obj": fmt.Sprintf("%.600v", w.Obj), "origin": origin, "stack": trimStack(st)}
-			if strings.Contains(origin, "github.com/openacid/low") || strings.Contains(origin, "/repo/") {
+			msg := fmt.Sprint(r)
+			switch {
+			case strings.Contains(origin, "github.com/openacid/low") || strings.Contains(origin, "/repo/"):
 				w.Fail("panic/"+f.Name+"/"+w.Op, d)
-			} else {
+			case w.Op != "" && (strings.Contains(msg, "index out of range") || strings.Contains(msg, "slice bounds out of range") || strings.Contains(msg, "nil pointer dereference")):
+				// A Go runtime error in driver code while it examines what the library call named in Op returned: the
+				// drivers index results only within the shapes the property guarantees (lengths, non-nil), so the
+				// result did not have that shape. (Explicit harness panics and anything else stay inconclusive.)
+				d["note"] = "runtime error in the driver while reading the result of this library call: the result does not have the shape the property guarantees (e.g. shorter than stated, nil)"
+				w.Fail("malformed-result/"+f.Name+"/"+w.Op, d)
+			default:
 				w.Harness("harness-panic/"+f.Name+"/"+w.Op, d)
 			}
 		}
